@@ -237,6 +237,67 @@ T = {
     change="x/leveragelp/keeper/position_open.go ProcessOpenLong: the unhealthy-position rejection applies only when the open borrows something",
     needs="an existing leveraged-LP position at or below the safety factor that was not swept yet, re-opened by its owner with leverage 1 or dust", caught_by="C10.open_healthy in mode c10 (leveragelp sweep variants)",
     history="MISSED at first (with the default sweep an unhealthy leveraged-LP position never survives to its owner's next tx); sweep variants per world added; caught since"),
+ "C11-3": dict(
+    change="x/perpetual/keeper/mtp.go fillMTPData (read helper): UpdateFundingFee replaced by SettleFunding, which persists the settlement",
+    needs="a perpetual pool with long and short open interest, funding accrued, and a transaction of another module that reads the MTPs "
+          "(tier portfolio hooks once per user per day, tradeshield MsgCreatePerpetualOpenOrder): custody changes after the accounted pool was refreshed",
+    caught_by="C11.total_eq and C11.nonamm_eq in hist mode (perp-focused run)",
+    history="caught at first run"),
+ "C12-3": dict(
+    change="x/leveragelp/keeper/position_close.go CloseLong: the unhealthy-position condition is passed on as isLiquidation to ForceCloseLong",
+    needs="a leveraged-LP position on an oracle pool, less than one hour after its last open (lock active), health at or below the safety factor, "
+          "closed by its OWNER with MsgClose: the commitment lock is overridden without a liquidation",
+    caught_by="C12.lock_kept in hist mode (cm-focused run) and stored history corpus/C12-owner-close-of-unhealthy-position-within-lock",
+    history="MISSED at first (the driver compared lock lists only against the model's own uncommit rule, which took the liquidation flag from the "
+            "implementation's event); clause C12.lock_kept added: an unexpired lock disappears only in a block with a liquidation "
+            "(MsgClosePositions / sweep) of that owner; caught since"),
+ "C13-3": dict(
+    change="x/masterchef/keeper/hooks_user_actions.go GetRewardDenoms: the dedupe set is seeded with the constant ptypes.BaseCurrency instead of the chain's USDC denom",
+    needs="USDC's on-chain denom differs from its base denom uusdc (an ibc/ voucher, as in production), a third-party incentive in USDC has distributed on a pool, "
+          "then an LP removes liquidity: the base currency is processed twice and the exit over-credits",
+    caught_by="C13.block_credit and C13.solvent in hist mode (histories whose world has USDC as an ibc/ voucher) and stored history corpus/C13-usdc-voucher-incentive-then-exit",
+    history="MISSED at first: every world used uusdc for both denoms, and — found while looking — every MsgAddExternalIncentive of the grammar was refused "
+            "(no supported reward denom configured). World variant added (one history in four has USDC as an ibc/ voucher; VERIF_IBC_USDC=1 forces it), "
+            "supported reward denoms ATOM and USDC configured, incentives funded in either, the driver tracks a reward denom from its funding; caught since"),
+ "C14-3": dict(
+    change="x/commitment/keeper/msg_server_cancel_vest.go CancelVest: per-entry cancellable amount bounded by total − VestedSoFar instead of total − ClaimedAmount",
+    needs="claim part of an entry, a first partial cancel that pulls the schedule below what was released, then a second cancel larger than total − claimed",
+    caught_by="C14.conservation and C14.complete in mode c14",
+    history="caught at first run"),
+ "C15-3": dict(
+    change="x/commitment/keeper/msg_server_unstake.go performUncommit: calls the keeper's denom-agnostic UncommitTokens instead of the msg server method with the Eden/EdenB allow-list",
+    needs="MsgUnstake with a pool share denom as asset (refused on the original), a bank send of the now liquid shares to the zero address, the burner epoch ending",
+    caught_by="C15.external_conserved (burn of a share denom by the burner with no withdrawal) in hist mode (cm-focused run) and stored history corpus/C15-unstake-shares-then-burn",
+    history="MISSED at first (no MsgUnstake with other assets, no sends to the zero address, and the burner had no epoch in the standard world); grammar ops "
+            "cm.unstakeOther and bank.toZero added, burner epoch of five minutes in every world, the known finding C15-burner narrowed to external denoms; caught since"),
+ "C16-3": dict(
+    change="x/oracle/keeper/msg_server_feed_multiple_prices.go: a re-fed unchanged value is skipped instead of written",
+    needs="MsgFeedMultiplePrices with exactly the stored value, then expiry of the older entry while the newer feed would still be live",
+    caught_by="C16.newest in mode c16",
+    history="caught at first run"),
+ "C17-3": dict(
+    change="x/amm/types/params.go IsCreatorAllowed: an empty AllowedPoolCreators list means unrestricted",
+    needs="stored amm params with an empty creator list (a governance MsgUpdateParams that leaves the field out), then MsgCreatePool from anybody",
+    caught_by="C17.list_gated_refused in mode c17 (probes under governance-written variants of the gating list: empty, other address)",
+    history="MISSED at first (list-gated messages were probed under the default list only); listGated probes added; caught since"),
+ "C18-3": dict(
+    change="x/commitment/keeper/commitments.go BurnEdenBoost: SetCommitments moved after the CommitmentChanged hook",
+    needs="an account with committed EdenB and a bonded ELYS delegation reduces the delegation partially in one block and again in a later block: "
+          "the distribution starting info kept the pre-burn stake and the estaking end-blocker's withdrawal panics",
+    caught_by="C18.block_ok (halt in EndBlock) in hist mode and stored history corpus/C18-edenb-burn-stale-starting-info",
+    history="MISSED at first (the grammar had no ELYS staking); stake.delegate / stake.undelegate (MsgStake, MsgUnstake of uelys) added; caught since"),
+ "C19-3": dict(
+    change="x/amm/keeper: decoded Params memoised in process memory, refilled from whatever context asks first",
+    needs="empty BaseAssets (default genesis), a MsgCreatePool that passes the base-asset checks and then fails (memo polluted from the discarded branch), "
+          "a restart, then a successful MsgCreatePool",
+    caught_by="C19.replicas_agree in mode c19 (fresh-process replica)",
+    history="caught at first run"),
+ "C20-3": dict(
+    change="x/tradeshield/genesis.go InitGenesis: pending order counters (the next ids) derived from the length of the imported lists",
+    needs="an export / import of the module's genesis while orders with gaps below the highest id are pending, then a new order: it takes the id and the escrow account of a pending one",
+    caught_by="C20.cancel_returns_all in hist mode with genesis round trips (VERIF_GENTRIP) and stored history corpus/C20-genesis-restart-order-id-reuse",
+    history="MISSED at first (no history restarted a module from its exported genesis); fault kind genesisRoundTrip (ExportGenesis → InitGenesis of one module "
+            "between blocks, harness/gentrip.go) added — which also exposed the same defect in the unchanged perpetual and leveragelp InitGenesis (fix 41f14ef); caught since"),
 }
 
 root = os.path.join(os.path.dirname(os.path.dirname(os.path.abspath(__file__))), "seeded")
